@@ -144,7 +144,7 @@ impl Monitor for C02Mon {
 }
 
 fn c02_tweak(g: &mut Gen, mc: &mut MachCfg, hc: &mut HistCfg) {
-    mc.action_w = [1, 0, 9, 1, 1];
+    mc.action_w = [1, 1, 9, 1, 1];
     mc.pad_budgets = vec![0, 0, 1, 2, 5, u64::MAX];
     mc.fracs = vec![0.0, 0.25, 0.5, 0.5, 1.0 / 3.0, 1.0, 1.0 / 1048576.0];
     mc.p_trans = *g.pick(&[0.4, 0.7, 0.9]);
@@ -320,7 +320,7 @@ impl Monitor for C03Mon {
 }
 
 fn c03_tweak(g: &mut Gen, mc: &mut MachCfg, hc: &mut HistCfg) {
-    mc.action_w = [1, 0, 1, 9, 1];
+    mc.action_w = [1, 1, 1, 9, 1];
     mc.block_budgets = vec![0, 0, 1, 1000, 5000, u64::MAX];
     mc.fracs = vec![0.0, 0.25, 0.5, 0.5, 1.0 / 3.0, 1.0, 1.0 / 1048576.0];
     mc.times_us = vec![0.0, 0.0, 1000.0, 1000.0, 2000.0, 5000.0];
